@@ -514,6 +514,46 @@ fn cli_level(rep: &Report) {
         });
         rep.extra("cli_reader_leaves_cases", json!(ljobs.len()));
     }
+    // an authentic file whose plaintext is EMPTY: on success the destination holds exactly that -- an empty file is created at a
+    // fresh -o path, and a file already there no longer holds its old bytes
+    {
+        let f0 = r::write_key_file(&alice.sk, &bob.pk, &derive32(seed, "c04-cli-e0"), &derive32(seed, "c04-cli-p0"), &[], &[0]).unwrap();
+        let q0 = r::write_pass_file_with_key(&r::pass_key(b"filepw", &salt), &salt, &[], &[0]);
+        let mut ej = vec![];
+        for mode in ["key", "pass"] {
+            for pre in [false, true] {
+                ej.push((mode, pre));
+            }
+        }
+        ej.par_iter().for_each(|&(mode, pre)| {
+            rep.eval(1);
+            rep.nontrivial(format!("cli-empty-plaintext-{}-{}", mode, pre).as_bytes());
+            let attempt = || -> Result<(), String> {
+                let sc = Scratch::new();
+                sc.write("in.ktl", if mode == "key" { &f0 } else { &q0 });
+                sc.write("kr.txt", kr_known.as_bytes());
+                if pre {
+                    sc.write("out.bin", b"bytes of an older, unrelated file");
+                }
+                let a: Vec<&str> = if mode == "key" { vec!["decrypt", "in.ktl", "-t", "bob", "-k", "kr.txt", "-o", "out.bin", "--env-pass"] } else { vec!["password", "decrypt", "in.ktl", "-o", "out.bin", "--env-pass"] };
+                let out = proc::run(&Cmd::new(&a).env("KESTREL_PASSWORD", if mode == "key" { "bobpw" } else { "filepw" }), &sc.0);
+                out.well_behaved()?;
+                if !out.ok() {
+                    return Err(format!("an authentic file with an empty plaintext is refused: {}", out.summary()));
+                }
+                match sc.read("out.bin") {
+                    Some(b) if b.is_empty() => Ok(()),
+                    Some(b) => Err(format!("exit 0, but the destination holds {} bytes that were never authenticated (the file that was there before)", b.len())),
+                    None => Err("exit 0, but no file exists at the -o path".into()),
+                }
+            };
+            if attempt().is_err() {
+                if let Err(e) = attempt() {
+                    rep.violation(&format!("C04/cli/{}-decrypt/empty-plaintext", mode), json!({"kind":"cli","name":format!("empty-plaintext-{}-{}", mode, pre)}), format!("kestrel {} decrypt -o out.bin ({}): {}", mode, if pre { "a file is already there" } else { "fresh path" }, e));
+                }
+            }
+        });
+    }
     rep.extra("cli_decrypt_cases", json!(jobs.len()));
     rep.sample(json!({"kind":"cli","case":"decrypt/corrupt-chunk-2/sender-unknown/stdout","expect":"exit 1; stdout holds exactly the first 65536 plaintext bytes"}));
 }
